@@ -1,6 +1,8 @@
 """C11 - Image iteration matches frame-by-frame rendering and leaks nothing."""
 from .render_data import *
 from .render_iterm2 import *
+from .render_kitty import *     # noqa: F401,F403  frame-image bookkeeping of KittyImage._render_image
+from .render_block import *     # noqa: F401,F403  ... and of BlockImage._render_image
 from .image_iterator import *
 
 TRUSTED = ["typestate model of byte streams / PIL images: open() and io.BytesIO() create a stream, `with` / close() closes it; PIL.Image.frombytes creates an image",
